@@ -148,8 +148,13 @@ pub fn replay(cases: &[Value], out: &mut Out) {
 }
 
 /// all frames a WS connection produces for `text`, followed by a probe, up to EOF after a graceful stop
-async fn ws_exchange(rig: &Rig, text: &str, probe_id: &str) -> Result<Vec<String>, String> {
+async fn ws_exchange(rig: &Rig, text: &str, probe_id: &str, with_batch_in_flight: bool) -> Result<Vec<String>, String> {
 	let mut ws = rig.ws().await?;
+	if with_batch_in_flight {
+		// another batch of this connection - one slow call - is still being executed when `text` arrives: each batch is
+		// answered on its own
+		ws.send_text(r#"[{"jsonrpc":"2.0","id":"in-flight","method":"slow"}]"#).await;
+	}
 	if !ws.send_text(text).await {
 		return Err("send failed".into());
 	}
@@ -165,7 +170,10 @@ async fn ws_exchange(rig: &Rig, text: &str, probe_id: &str) -> Result<Vec<String
 	if !clean {
 		return Err(format!("no EOF after stop; frames={frames:?}"));
 	}
-	Ok(frames.into_iter().filter(|f| serde_json::from_str::<Value>(f).map(|v| v["id"] != pid).unwrap_or(true)).collect())
+	Ok(frames
+		.into_iter()
+		.filter(|f| serde_json::from_str::<Value>(f).map(|v| v["id"] != pid && v[0]["id"] != json!("in-flight")).unwrap_or(true))
+		.collect())
 }
 
 async fn one_case(rig: &Rig, i: usize, k: usize, c: &Value) -> (Vec<(String, Value)>, Value) {
@@ -200,7 +208,8 @@ async fn one_case(rig: &Rig, i: usize, k: usize, c: &Value) -> (Vec<(String, Val
 			let r = rig.http_json(text.as_bytes()).await;
 			if r.body.is_empty() || r.body == b"null" { vec![] } else { vec![String::from_utf8_lossy(&r.body).into_owned()] }
 		} else {
-			match ws_exchange(rig, &text, &format!("probe-{i}-{k}")).await {
+			// (where batching is disabled the companion batch would be refused with the same id-less error as the case's own)
+			match ws_exchange(rig, &text, &format!("probe-{i}-{k}"), (i + k) % 3 == 2 && cfgname != "Disabled").await {
 				Ok(f) => f,
 				Err(e) => {
 					problems.push((format!("ws:batch:connection-not-serving:{cfgname}"), json!({"err": e})));
@@ -307,7 +316,7 @@ async fn one_case(rig: &Rig, i: usize, k: usize, c: &Value) -> (Vec<(String, Val
 					let alone: Option<Value> = if tr == "http" {
 						rig.http_json(e.text.as_bytes()).await.json()
 					} else {
-						ws_exchange(rig, &e.text, "probe-alone").await.ok().and_then(|f| f.first().and_then(|t| serde_json::from_str(t).ok()))
+						ws_exchange(rig, &e.text, "probe-alone", false).await.ok().and_then(|f| f.first().and_then(|t| serde_json::from_str(t).ok()))
 					};
 					let in_batch = arr.iter().find(|x| Some(&x["id"]) == e.id.as_ref());
 					if alone.as_ref() != in_batch {
